@@ -102,3 +102,11 @@ chk("C14", MC,
     "above target, next request only after the previous state was reported, return/raise conditions. All paths explored.",
     PY_NOTE + " AL state machine model written from ETG.1000.6 (protocol-conformant terminal).",
     "symbolic execution of the real coroutines against a nondeterministic protocol model (z3, path-exhaustive)", "B:8/C14")
+
+chk("C20", MC,
+    "Inductive step over the real Terminal.map_fmmu (enter and exit) from an ARBITRARY slot table: 1..4 FMMUs, each free or "
+    "in use (solver booleans), all logical addresses, sizes and offsets symbolic, for a read and a write mapping: chosen "
+    "index is an in-range previously free slot, exactly that FMMU's register block is written with the right entry, other "
+    "slots untouched, no free slot => failure without touching anything, exit frees and deactivates exactly that slot. Plus "
+    "real histories of up to 3 (4) nested mappings ended in every order (solver-chosen read/write kinds).",
+    PY_NOTE, "symbolic execution of the real coroutine from an arbitrary pre-state (one inductive step) + bounded histories", "B:8/C20")
